@@ -120,7 +120,9 @@ func (cl *Client) Key(etype etype.EType, kvno int, krberr *messages.KRBError) (t
 	if cl.Credentials.HasKeytab() && etype != nil {
 		return cl.Credentials.Keytab().GetEncryptionKey(cl.Credentials.CName(), cl.Credentials.Domain(), kvno, etype.GetETypeID())
 	} else if cl.Credentials.HasPassword() {
-		if krberr != nil && krberr.ErrorCode == errorcode.KDC_ERR_PREAUTH_REQUIRED {
+		// A KDC that refuses a pre-emptive pre-authentication attempt sends the same hints with KDC_ERR_PREAUTH_FAILED
+		if krberr != nil && (krberr.ErrorCode == errorcode.KDC_ERR_PREAUTH_REQUIRED ||
+			(krberr.ErrorCode == errorcode.KDC_ERR_PREAUTH_FAILED && len(krberr.EData) > 0)) {
 			var pas types.PADataSequence
 			err := pas.Unmarshal(krberr.EData)
 			if err != nil {
